@@ -25,6 +25,7 @@ type flow struct{ Src, Sink, Arg int }
 
 var flows = map[flow]bool{}
 var approved = map[int]bool{}
+var minHops = map[[2]int]int{}
 var sanitizedSeen = map[flow]bool{}
 var entered = map[int]bool{}
 var calls = map[string]bool{}
@@ -46,6 +47,7 @@ func ResetState(prog string, val uint64) {
 	Opaque = val
 	flows = map[flow]bool{}
 	approved = map[int]bool{}
+	minHops = map[[2]int]int{}
 	sanitizedSeen = map[flow]bool{}
 	entered = map[int]bool{}
 	calls = map[string]bool{}
@@ -122,13 +124,18 @@ type visitKey struct {
 	t reflect.Type
 }
 
-func walk(v reflect.Value, seen map[visitKey]bool, depth int, f func(s string)) {
+func walk(v reflect.Value, seen map[visitKey]bool, depth int, f func(s string, hops int)) {
+	walkH(v, seen, depth, 0, f)
+}
+
+// walkH also counts the reference hops (pointer dereference, slice / map element) taken from the sink argument.
+func walkH(v reflect.Value, seen map[visitKey]bool, depth int, hops int, f func(s string, hops int)) {
 	if !v.IsValid() || depth > 64 {
 		return
 	}
 	switch v.Kind() {
 	case reflect.String:
-		f(v.String())
+		f(v.String(), hops)
 	case reflect.Pointer:
 		if v.IsNil() {
 			return
@@ -138,18 +145,18 @@ func walk(v reflect.Value, seen map[visitKey]bool, depth int, f func(s string)) 
 			return
 		}
 		seen[k] = true
-		walk(v.Elem(), seen, depth+1, f)
+		walkH(v.Elem(), seen, depth+1, hops+1, f)
 	case reflect.Interface:
 		if v.IsNil() {
 			return
 		}
-		walk(v.Elem(), seen, depth+1, f)
+		walkH(v.Elem(), seen, depth+1, hops, f)
 	case reflect.Slice:
 		if v.IsNil() {
 			return
 		}
 		if v.Type().Elem().Kind() == reflect.Uint8 {
-			f(string(v.Bytes()))
+			f(string(v.Bytes()), hops+1)
 			return
 		}
 		k := visitKey{v.Pointer(), v.Type()}
@@ -157,11 +164,11 @@ func walk(v reflect.Value, seen map[visitKey]bool, depth int, f func(s string)) 
 			// same backing start: still walk (length may differ) but only once per (ptr,len)
 		}
 		for i := 0; i < v.Len(); i++ {
-			walk(v.Index(i), seen, depth+1, f)
+			walkH(v.Index(i), seen, depth+1, hops+1, f)
 		}
 	case reflect.Array:
 		for i := 0; i < v.Len(); i++ {
-			walk(v.Index(i), seen, depth+1, f)
+			walkH(v.Index(i), seen, depth+1, hops, f)
 		}
 	case reflect.Map:
 		if v.IsNil() {
@@ -174,12 +181,12 @@ func walk(v reflect.Value, seen map[visitKey]bool, depth int, f func(s string)) 
 		seen[k] = true
 		it := v.MapRange()
 		for it.Next() {
-			walk(it.Key(), seen, depth+1, f)
-			walk(it.Value(), seen, depth+1, f)
+			walkH(it.Key(), seen, depth+1, hops+1, f)
+			walkH(it.Value(), seen, depth+1, hops+1, f)
 		}
 	case reflect.Struct:
 		for i := 0; i < v.NumField(); i++ {
-			walk(v.Field(i), seen, depth+1, f)
+			walkH(v.Field(i), seen, depth+1, hops, f)
 		}
 	}
 }
@@ -190,10 +197,14 @@ func Sink(line int, args ...any) {
 	defer mu.Unlock()
 	for ai, a := range args {
 		seen := map[visitKey]bool{}
-		walk(reflect.ValueOf(a), seen, 0, func(s string) {
+		walk(reflect.ValueOf(a), seen, 0, func(s string, hops int) {
 			scan(s, func(kind byte, src int) {
 				if kind == 'S' {
 					flows[flow{src, line, ai}] = true
+					k := [2]int{src, line}
+					if h, ok := minHops[k]; !ok || hops < h {
+						minHops[k] = hops
+					}
 				} else {
 					sanitizedSeen[flow{src, line, ai}] = true
 				}
@@ -250,6 +261,7 @@ type report struct {
 	Prog     string     ` + "`json:\"prog\"`" + `
 	Val      uint64     ` + "`json:\"val\"`" + `
 	Flows    [][3]int   ` + "`json:\"flows\"`" + `
+	Hops     [][3]int   ` + "`json:\"hops\"`" + `
 	Approved []int      ` + "`json:\"approved\"`" + `
 	Entered  []int      ` + "`json:\"entered\"`" + `
 	Calls    []string   ` + "`json:\"calls\"`" + `
@@ -266,6 +278,9 @@ func Dump(panicked string) {
 	r := report{Prog: Prog, Val: Opaque, Panic: panicked, Flows: [][3]int{}, Extra: Extra}
 	for f := range flows {
 		r.Flows = append(r.Flows, [3]int{f.Src, f.Sink, f.Arg})
+	}
+	for k, h := range minHops {
+		r.Hops = append(r.Hops, [3]int{k[0], k[1], h})
 	}
 	for a := range approved {
 		r.Approved = append(r.Approved, a)
